@@ -28,10 +28,11 @@ fn gen_plan(focus: &str, seed: u64, run: u64, tier: Tier) -> Plan {
         heartbeat_ms: hb,
         term_ms: rng.range(hb * 2, hb * 4),
         latency_ms: rng.range(1, 60),
+        jitter_seed: if rng.chance(1, 8) { 0 } else { rng.next() | 1 },
         tick_phase_us: (0..nodes).map(|_| rng.below(10_000)).collect(),
         horizon_ms,
         settle_ms: if liveness { 60_000 + 35_000 + 5_000 } else { 0 },
-        tail_appends: if liveness { rng.range(1, 5) } else { 0 },
+        tail_appends: if liveness { rng.range(0, 4) } else { 0 },
         no_cut: false,
         events: vec![],
     };
@@ -97,7 +98,8 @@ fn gen_plan(focus: &str, seed: u64, run: u64, tier: Tier) -> Plan {
     // record mode: run once drawing a fate for every message, and pin the deviations into the plan
     let recorded = {
         let mut r2 = Rng::derive(seed, run, stream ^ 0x55);
-        let chooser = Chooser::Record { rng: &mut r2, drop, dup, delay, max_delay_ms, until_ns: horizon_ms * 1_000_000, out: vec![] };
+        let adapt = [if on(&mut rng, 60) { rng.range(20, 90) } else { 0 }, if on(&mut rng, 50) { rng.range(10, 60) } else { 0 }, if on(&mut rng, 40) { rng.range(10, 60) } else { 0 }];
+        let chooser = Chooser::Record { rng: &mut r2, drop, dup, delay, max_delay_ms, until_ns: horizon_ms * 1_000_000, out: vec![], adapt, next_data: 500_000 };
         let mut sim = Sim::new(&plan, chooser);
         sim.run();
         sim.recorded()
@@ -145,7 +147,7 @@ fn exec_plan(plan: &Plan) -> RunReport {
     for v in &sim.violations {
         if v.property == plan.focus {
             // the class carries the root-cause signature: the first ghost-monitor deviation on the trace
-            let root = sim.ghosts.iter().find(|g| known_roots.contains(g)).or(sim.ghosts.first());
+            let root = if sim.ghosts.first().map(|g| g.starts_with("G11:")).unwrap_or(false) { sim.ghosts.first() } else { sim.ghosts.iter().find(|g| known_roots.contains(g)).or(sim.ghosts.first()) };
             let class = match root {
                 Some(g) => format!("{} via {g}", v.class),
                 None => v.class.clone(),
@@ -195,8 +197,8 @@ fn def(id: &'static str, generate: fn(u64, u64, Tier) -> Value, exec: fn(&Value,
         exec,
         steps: "/events",
         runs: |t| match t {
-            Tier::Quick => 3000,
-            Tier::Thorough => 200_000,
+            Tier::Quick => 30_000,
+            Tier::Thorough => 400_000,
         },
         wall_cap_s: |t| match t {
             Tier::Quick => 120,
